@@ -30,13 +30,13 @@ import ast, os, math, itertools
 from fractions import Fraction
 import z3
 from . import cfront
-from .csym import Obligation
+from .csym import Obligation, Unsupported
 
 STR = z3.DeclareSort("PyStr")
 LOWER = z3.Function("py_lower", STR, STR)
 
 
-class PyUnsupported(Exception):
+class PyUnsupported(Unsupported):
     pass
 
 
